@@ -19,7 +19,20 @@ func vlistCase(line string) (res string) {
 			res = sb.String() + " PANIC"
 		}
 	}()
-	v := verifapi.NewVList()
+	// a first token N selects a list WITHOUT the search array (the all-store's configuration): p, f, b, t only
+	type vl interface {
+		Push(uint64)
+		PopFront() (uint64, bool)
+		PopBack() (uint64, bool)
+		Latest() (uint64, bool)
+	}
+	full := verifapi.NewVList()
+	var v vl = full
+	if len(toks) > 1 && toks[1] == "N" {
+		v = verifapi.NewVListNoSearch()
+		full = nil
+		toks = append(toks[:1], toks[2:]...)
+	}
 	optn := func(x uint64, ok bool) string {
 		if !ok {
 			return "n"
@@ -41,14 +54,22 @@ func vlistCase(line string) (res string) {
 		case 'b':
 			r = optn(v.PopBack())
 		case 'c':
-			d := v.Collect(arg)
+			if full == nil {
+				r = "?"
+				break
+			}
+			d := full.Collect(arg)
 			ss := make([]string, len(d))
 			for i, x := range d {
 				ss[i] = strconv.FormatUint(x, 10)
 			}
 			r = "[" + strings.Join(ss, ",") + "]"
 		case 'l', 'L':
-			r = optn(v.LastBefore(arg))
+			if full == nil {
+				r = "?"
+				break
+			}
+			r = optn(full.LastBefore(arg))
 		case 't':
 			r = optn(v.Latest())
 		default:
